@@ -3,6 +3,7 @@
 package verifharness
 
 import (
+	"bytes"
 	"os"
 	"fmt"
 	"math/rand"
@@ -167,6 +168,15 @@ func (s *hstate) exec(o hop) string {
 		switch o.kind {
 		case "rootwrite":
 			// the in-place setters of a Root view: the view changes, nothing else may
+			if bv, ok := vw.(view.SmallByteVecView); ok {
+				// the same for a small byte vector view (a slice): UnmarshalText fills it in place
+				nb := bytes.Repeat([]byte{byte(o.i%250) + 1}, len(bv))
+				txt, _ := view.SmallByteVecView(nb).MarshalText()
+				if err := bv.UnmarshalText(txt); err != nil {
+					return "ERR"
+				}
+				return "OK"
+			}
 			rv, ok := vw.(*view.RootView)
 			if !ok {
 				return "ERR"
